@@ -1194,11 +1194,19 @@ func (d *indexData) newMatchTree(q query.Q, opt matchTreeOpt) (matchTree, error)
 		}
 
 		var regexpMT *regexpMatchTree
-		visitMatchTree(subMT, func(mt matchTree) {
-			if t, ok := mt.(*regexpMatchTree); ok {
-				regexpMT = t
-			}
-		})
+		if re, ok := s.Expr.(*query.Regexp); ok {
+			// subMT only selects the candidate documents. It can be equivalent to
+			// the regexp without containing a regexpMatchTree (an alternation of
+			// literals), or contain only the regexpMatchTrees of short literals of
+			// the regexp. The sections are matched against the regexp itself.
+			regexpMT = newRegexpMatchTree(re)
+		} else {
+			visitMatchTree(subMT, func(mt matchTree) {
+				if t, ok := mt.(*regexpMatchTree); ok {
+					regexpMT = t
+				}
+			})
+		}
 		if regexpMT == nil {
 			return nil, fmt.Errorf("found %T inside query.Symbol", subMT)
 		}
